@@ -50,3 +50,41 @@ Print Assumptions c10_impossible_fails.
 Theorem c10_resume_site_total : forall (a : assets) (s : session) (wi : nat), exists o, resume_site a s wi o.
 Proof. exact resume_site_total. Qed.
 Print Assumptions c10_resume_site_total.
+
+(* No resume of a reachable session ends with a Go error, a panic or a hang, whatever happened to the
+   asset store since the session last ran (flows or nodes deleted or changed), as long as the store it
+   is resumed against consists of validated definitions: the result is an engine error (session
+   untouched) or a session that is waiting, completed or failed. *)
+From Verif Require Import proofs.EngineInv proofs.EngineFuel proofs.EngineNoErr.
+
+Theorem c10_resume_outcomes : forall (a : assets) (s : session) (r : resume) (tmo : text),
+  valid_assets a -> reachable s ->
+  (exists code, resume_session a s r tmo = Rejected code) \/
+  (exists x', resume_session a s r tmo = Resumed (ROk x') /\
+              (s_status (session_ x') = SWaiting \/ s_status (session_ x') = SCompleted \/ s_status (session_ x') = SFailed)).
+Proof.
+  intros a s r tmo Hv Hr. destruct (resume_session a s r tmo) as [code|res] eqn:E; [left; eauto|right].
+  destruct res as [x'|y| |].
+  - exists x'. split; auto. eapply resume_settled; eauto.
+  - exfalso. eapply reachable_resume_no_go_error; eauto.
+  - exfalso. eapply resume_no_panic; eauto.
+  - exfalso. eapply reachable_resume_fuel_suffices; eauto.
+Qed.
+Print Assumptions c10_resume_outcomes.
+
+(* "The session is left exactly as it was and no events are produced."  [resume_m] is the model of Resume in
+   state-passing form: it returns the state the method leaves behind in every case (model/Engine.v; every
+   assignment of the Go method is placed where the Go code has it).  [resume_session] is [resume_m] with that
+   state dropped; and whenever the outcome is an engine error the state left behind is the session the method
+   was called on, with an empty sprint - for every session, every asset store, every resume. *)
+Theorem c10_resume_m_agrees : forall (a : assets) (s : session) (r : resume) (tmo : text),
+  resume_session a s r tmo = match snd (resume_m a s r tmo) with OErr c => Rejected c | ORes res => Resumed res end.
+Proof. exact resume_m_agrees. Qed.
+Print Assumptions c10_resume_m_agrees.
+
+Theorem c10_rejected_unchanged : forall (a : assets) (s : session) (r : resume) (tmo : text) (x' : st) (code : N),
+  resume_m a s r tmo = (x', OErr code) -> session_ x' = s /\ sp_events (sprint_ x') = [] /\ sp_segments (sprint_ x') = [].
+Proof.
+  intros a s r tmo x' code H. rewrite (resume_m_rejected_unchanged a s r tmo x' code H). repeat split.
+Qed.
+Print Assumptions c10_rejected_unchanged.
